@@ -200,3 +200,59 @@ def sign_and_overdraw(res, prop="C02"):
             i = int(bad[0])
             raise Violation(prop, "overdraw/%s" % type(c).__name__, "%s/%s index %d: outflow %r exceeds size %r" % (pop.name, c.name, i, outflow[i], v[i]))
     return feats
+
+
+def check_structure(spec, res, prop, what=("links", "residual", "timed")):
+    """The built model has the structure the FRAMEWORK states (read from the ModelSpec, i.e. the inputs - never from atomica's own
+    objects): the same links between the same compartments within each population, junctions with a '>' outflow are residual
+    junctions (and only those), and exactly the compartments that a timed parameter flows out of keep elapsed time.  The flow rules
+    are checked per link by the properties' oracles; this makes sure no link, residual marking or duration group was lost on the way
+    from the framework to the model."""
+    from collections import Counter
+
+    Src, Snk, Junc, ResJ, Timed, TLink = kinds()
+    if "comps" not in spec:
+        return
+    types = spec.get("pop_types") or [None]
+    ctype = {c["name"]: c.get("type", types[0]) for c in spec["comps"]}
+    ptype = {}
+    for p in spec["pops"]:
+        if isinstance(p, str):
+            ptype[p] = types[0]
+        else:
+            ptype[p["name"]] = p.get("type", types[0])
+    timed_pars = {p["name"] for p in spec["pars"] if p.get("timed")}
+    exp_links = {}
+    residual_j = set()
+    timed_c = set()
+    for a, b, w in spec["links"]:
+        if w == ">":
+            exp_links.setdefault(ctype[a], Counter())[(a, b, None)] += 1
+            residual_j.add(a)
+        else:
+            for par in w:
+                exp_links.setdefault(ctype[a], Counter())[(a, b, None if par in timed_pars else par)] += 1
+                if par in timed_pars:
+                    timed_c.add(a)
+    for pop in res.model.pops:
+        ty = ptype.get(pop.name, types[0])
+        if "links" in what:
+            got = Counter()
+            for l in pop.links:
+                if l.source.pop is pop and l.dest.pop is pop:
+                    pn = l.parameter.name if l.parameter is not None else None
+                    got[(l.source.name, l.dest.name, None if pn in timed_pars else pn)] += 1
+            exp = exp_links.get(ty, Counter())
+            if got != exp:
+                missing = sorted((exp - got).elements(), key=repr)
+                extra = sorted((got - exp).elements(), key=repr)
+                raise Violation(prop, "structure/links", "population %s: the framework's transition matrix states links that the model lacks %r / the model has links the framework does not state %r" % (pop.name, missing[:6], extra[:6]))
+        for c in pop.comps:
+            if ctype.get(c.name) != ty:
+                continue
+            if "residual" in what and isinstance(c, Junc):
+                if (c.name in residual_j) != isinstance(c, ResJ):
+                    raise Violation(prop, "structure/residual-junction", "population %s junction %s: the framework %s a residual ('>') outflow but the model built it as %s" % (pop.name, c.name, "gives it" if c.name in residual_j else "does not give it", type(c).__name__))
+            if "timed" in what and not isinstance(c, (Junc, Src, Snk)):
+                if (c.name in timed_c) != isinstance(c, Timed):
+                    raise Violation(prop, "structure/timed-compartment", "population %s compartment %s: the framework %s a timed outflow but the model built it as %s" % (pop.name, c.name, "gives it" if c.name in timed_c else "does not give it", type(c).__name__))
